@@ -173,8 +173,7 @@ def _side(draw, gspec, axis, rank, dtype, kinds, allow_normal, allow_expr, repli
 
 # "objects_sides": condition OBJECTS as the values of a dictionary of sides (the package copies such
 # instances); "objects_copied": a copy of an explicitly built BoundariesList - both after missed seed C02-7
-# (MixedBC.copy lost the Robin constant); constant-value kinds only (copying expression conditions fails
-# with a TypeError on the unchanged tree, see DESIGN.md observations)
+# (MixedBC.copy lost the Robin constant)
 STYLES = ("sides", "axis", "wildcard", "named", "single", "auto_neumann", "auto_dirichlet",
           "objects", "legacy_list", "legacy_lowhigh", "mixed_keys", "objects_sides", "objects_copied")
 
@@ -419,22 +418,18 @@ def render_bc(bc, gspec, grid=None, dtype="f8"):
     if style in ("objects_sides", "objects_copied"):
         if grid is None:
             raise ValueError("need grid")
-        only_const = all(isinstance(ax, str) or all(ax[k]["kind"] in CONST_KINDS for k in ("low", "high"))
-                         for ax in bc["axes"])
-        if not only_const:
-            style = "objects"
-        else:
-            bl = explicit_boundaries(bc, grid, gspec, dtype)
-            if style == "objects_copied":
-                return bl.copy(), style
-            res = {}
-            for a, ax in enumerate(bc["axes"]):
-                if isinstance(ax, str):
-                    res[names[a]] = ax
-                else:
-                    res[names[a] + "-"] = bl[a].low
-                    res[names[a] + "+"] = bl[a].high
-            return res, style
+        # (every kind: copies of value/derivative expression conditions raised a TypeError before fix 554bd30)
+        bl = explicit_boundaries(bc, grid, gspec, dtype)
+        if style == "objects_copied":
+            return bl.copy(), style
+        res = {}
+        for a, ax in enumerate(bc["axes"]):
+            if isinstance(ax, str):
+                res[names[a]] = ax
+            else:
+                res[names[a] + "-"] = bl[a].low
+                res[names[a] + "+"] = bl[a].high
+        return res, style
     if style == "objects":
         if grid is None:
             raise ValueError("need grid")
